@@ -20,7 +20,7 @@ RULE = ("case = operation {get, multiget, getnext, multigetnext, set, multiset, 
         "bulktable} x clock schedule (start over Integer32, increments from {0, 0.3, 0.999, 1, 1.5, 60} per read) x protocol "
         "{v1, v2c, v3 x 3 levels} x perturbation {none, id+1, id-1, id 0, random id, the previous request's id, other "
         "community, empty community, other version number, discovery msgID} applied to the k-th response x optional history "
-        "(warm-up exchange under other credentials, then configure) x optionally the same read operation twice in flight on the client (echo direction); non-trivial = the clock advances by >= 1 s between two "
+        "(warm-up exchange under other credentials, then configure) x walks in strict and lenient (errors=warn) mode x optionally the same read operation twice in flight on the client (echo direction); non-trivial = the clock advances by >= 1 s between two "
         "reads inside the operation, or the response id differs from the request id; distinct = SHA-1 of canonical JSON case")
 ASSUMPTIONS = [
     "nothing is assumed about how request ids are derived; the clock is only an adversarial environment",
@@ -81,6 +81,8 @@ def run_case(case) -> Result:
         classes.add("v3")
     if op in WALKS:
         classes.add("walk_op")
+    if case.get("errors") == "warn":
+        classes.add("lenient_walk")
     if pert["kind"] != "none":
         classes.add("perturbed")
     via = case.get("via")
@@ -216,9 +218,9 @@ def run_case(case) -> Result:
         if op == "multigetnext":
             return await client.multigetnext([O(COL1), O(COL2 + (1,))])
         if op == "walk":
-            return await drain(client.walk(O(COL1)))
+            return await drain(client.walk(O(COL1), errors=case.get("errors", "strict")))
         if op == "multiwalk":
-            return await drain(client.multiwalk([O(COL2), O(COL1)]))
+            return await drain(client.multiwalk([O(COL2), O(COL1)], errors=case.get("errors", "strict")))
         if op == "bulkwalk":
             return await drain(client.bulkwalk([O(COL1), O(COL2)], bulk_size=case.get("bulk", 2)))
         if op == "table":
@@ -335,13 +337,16 @@ def cases(draw):
     if kind == "id+k*2^32":
         pert["value"] = draw(st.sampled_from([2, 3, -2, 255, 2 ** 20, 2 ** 31]))
     if kind == "disco_msgid":
-        pert["delta"] = draw(st.sampled_from([1, -1, 4711]))
+        pert["delta"] = draw(st.sampled_from([1, -1, 4711, 2 ** 32, -2 ** 32, 2 ** 33]))
     case = dict(proto=proto, op=op, perturb=pert,
                 clock=draw(st.one_of(st.sampled_from([5, 1_700_000_000, 1_700_000_000.5, 1_700_000_000.999, 2 ** 31 - 100]),
                                      st.floats(1, 2 ** 31 - 1000, allow_nan=False))),
                 inc=draw(INCS), bulk=draw(st.sampled_from([1, 2, 3, 10])))
     if kind == "none" and draw(st.integers(0, 3)) == 0:
         case["twice"] = True
+    if op in ("walk", "multiwalk") and draw(st.booleans()):
+        # lenient walks tolerate a faulty AGENT; a response that is not the answer to the request is something else
+        case["errors"] = "warn"
     if draw(st.integers(0, 7)) == 0:
         # history: a complete exchange under other credentials first (same or other family), then configure()
         if proto["v"] == "3":
